@@ -5,6 +5,7 @@ import (
 	"fmt"
 	"math/rand"
 	"os"
+	"reflect"
 	"sort"
 	"strings"
 	"time"
@@ -38,7 +39,7 @@ func init() {
 
 // ---- (a) fuzz -------------------------------------------------------------------
 
-var c12FuzzAlphabet = []rune{'"', '\'', ':', ' ', '\t', 'é', 'ß', '中'}
+var c12FuzzAlphabet = []rune{'"', '\'', ':', ' ', '\t', 'é', 'ß', '中', '"', ':', ' ', ',', '-'}
 
 func c12FuzzString(rng *rand.Rand) string {
 	n := rng.Intn(36)
@@ -46,8 +47,11 @@ func c12FuzzString(rng *rand.Rand) string {
 		n = rng.Intn(200)
 	}
 	var sb strings.Builder
-	// three mixes: structural characters frequent / words frequent / qualifier-like
-	mix := rng.Intn(3)
+	// four mixes: structural characters frequent / words frequent / qualifier-like / grammar-shaped
+	mix := rng.Intn(4)
+	if mix == 3 {
+		return c12FuzzGrammar(rng)
+	}
 	words := []string{"status", "author", "label", "title", "sort", "no", "metadata", "actor", "participant", "open", "closed", "id", "edit", "creation", "id-desc", "state"}
 	for i := 0; i < n; i++ {
 		k := rng.Intn(10)
@@ -63,6 +67,83 @@ func c12FuzzString(rng *rand.Rand) string {
 		}
 	}
 	return sb.String()
+}
+
+// c12FuzzGrammar makes a string shaped like a query: tokens of one to four parts, the parts bare words or quoted
+// strings whose content is drawn from the whole alphabet (minus the enclosing quote); now and then damaged.
+func c12FuzzGrammar(rng *rand.Rand) string {
+	quals := []string{"status", "author", "label", "title", "sort", "no", "metadata", "actor", "participant", "state", "x", "Title"}
+	vals := []string{"open", "closed", "id", "edit-desc", "creation-asc", "label", "k", "René", "a-b", "a,b", "-x", "中"}
+	part := func(pool []string) string {
+		switch rng.Intn(5) {
+		case 0, 1:
+			return pool[rng.Intn(len(pool))]
+		default:
+			q := []rune{'"', '"', '\''}[rng.Intn(3)]
+			var sb strings.Builder
+			sb.WriteRune(q)
+			for n := rng.Intn(9); n >= 0; n-- {
+				var c rune
+				switch rng.Intn(4) {
+				case 0:
+					c = ':'
+				case 1:
+					c = rune('a' + rng.Intn(26))
+				default:
+					c = c12FuzzAlphabet[rng.Intn(len(c12FuzzAlphabet))]
+				}
+				if c == q || c == '\t' {
+					c = ':'
+				}
+				sb.WriteRune(c)
+			}
+			if rng.Intn(25) != 0 {
+				sb.WriteRune(q)
+			}
+			return sb.String()
+		}
+	}
+	var toks []string
+	for n := 1 + rng.Intn(4); n > 0; n-- {
+		var t string
+		switch rng.Intn(8) {
+		case 0, 1:
+			t = part(vals)
+		case 2:
+			t = "metadata:" + part(vals) + ":" + part(vals)
+		case 3:
+			t = part(quals) + ":" + part(vals) + ":" + part(vals)
+		default:
+			t = quals[rng.Intn(len(quals))] + ":" + part(vals)
+		}
+		switch rng.Intn(30) {
+		case 0:
+			t += ":"
+		case 1:
+			t = strings.Replace(t, ":", "::", 1)
+		case 2:
+			t = ":" + t
+		}
+		toks = append(toks, t)
+	}
+	return strings.Join(toks, []string{" ", " ", "  ", "\t"}[rng.Intn(4)])
+}
+
+// c12FeatureOrder: priority of the features of quoted parts when a key has to name one.
+var c12FeatureOrder = []string{"only-colons", "colon-run", "leading-colon", "trailing-colon", "qualifier-like", "many-colons", "colon", "other-quote", "edge-space", "operator-chars+space", "operator-chars", "space", "plain"}
+
+func c12TopFeature(features []string) string {
+	if len(features) == 0 {
+		return "nothing-quoted"
+	}
+	for _, f := range c12FeatureOrder {
+		for _, g := range features {
+			if f == g {
+				return "quoted-" + f
+			}
+		}
+	}
+	return "quoted-" + features[0]
 }
 
 func c12ParseSafe(s string) (q *query.Query, err error, panicked any) {
@@ -108,7 +189,7 @@ func c12Fuzz(r *mon.Run) {
 	nChunks := (n + chunk - 1) / chunk
 	parallel(nChunks, func(k int) int {
 		rng := mon.Rng(r.Seed, "c12-fuzz", k)
-		accepted, rejected := 0, 0
+		accepted, rejected, wellformed, malformed, undetermined := 0, 0, 0, 0, 0
 		for i := k * chunk; i < (k+1)*chunk && i < n; i++ {
 			s := c12FuzzString(rng)
 			q, err, p := c12ParseSafe(s)
@@ -127,11 +208,39 @@ func c12Fuzz(r *mon.Run) {
 				r.Case(shape+"/accepted", true)
 				if q == nil {
 					r.Violation("parse-nil", fmt.Sprintf("query.Parse(%q) returned neither a query nor an error", s), map[string]any{"input": s})
+					continue
 				}
+			}
+			// differential: what the reference reader of the documented grammar says about the string
+			// (three-valued: most random strings are outside of what the documentation settles)
+			ref := refmodel.JudgeDocQuery(s)
+			switch ref.Verdict {
+			case refmodel.QWellFormed:
+				wellformed++
+				for _, f := range ref.Features {
+					r.Seen("fuzz_wellformed_quoted_features", f)
+				}
+				if err != nil {
+					r.Violation("fuzz/wellformed-rejected/"+c12ErrClass(err)+"/"+c12TopFeature(ref.Features), fmt.Sprintf("query %q is well-formed (denotes %+v) but is rejected: %v", s, ref.Expect, err), map[string]any{"input": s})
+				} else if comp, detail := c12CompareParsed(q, ref.Expect); comp != "" {
+					r.Violation("fuzz/wellformed-misparsed/"+comp+"/"+c12TopFeature(ref.Features), fmt.Sprintf("query %q parsed to %s", s, detail), map[string]any{"input": s})
+				}
+			case refmodel.QMalformed:
+				malformed++
+				r.Seen("fuzz_malformed_classes", ref.Class)
+				if err == nil {
+					r.Violation("fuzz/malformed-accepted/"+ref.Class, fmt.Sprintf("malformed query %q (%s) accepted, parsed as %s", s, ref.Class, c12DescribeQuery(q)), map[string]any{"input": s, "class": ref.Class})
+				}
+			default:
+				undetermined++
+				r.Seen("fuzz_undetermined_reasons", ref.Class)
 			}
 		}
 		r.Count("fuzz_accepted", accepted)
 		r.Count("fuzz_rejected", rejected)
+		r.Count("fuzz_judged_wellformed", wellformed)
+		r.Count("fuzz_judged_malformed", malformed)
+		r.Count("fuzz_not_judged(outside the documented language)", undetermined)
 		return 0
 	})
 }
@@ -153,21 +262,92 @@ func c12ErrClass(err error) string {
 
 var c12Words = []string{"descartes", "René", "Critical", "typo", "in", "string", "prod", "Good", "first", "issue", "zq17xk", "UI", "ünïcode", "中文", "x", "v1.2", "foo-bar", "under_score", "label", "sort", "open", "42", "Æther", "a/b", "#12", "café"}
 
+// c12SpecialValues: values that are only expressible between quotes and consist of what is syntax outside of them
+// (or of operator-like characters of other query languages). One dominant feature each (refmodel.QValueFeature);
+// the fixed battery of the round-trip part runs every one of them through every free-valued qualifier.
+var c12SpecialValues = []string{
+	// colon
+	"a:b", "http://x.y/z", "v1.2:rc",
+	// colon-run
+	"std::string", "std::string leaks", "a::b c", "a:::b", "x::::y", "a::b::c", "a :: b",
+	// only-colons
+	":", "::", ":::",
+	// leading / trailing colon
+	":x", ":x y", "x:", "x y:", ":x:",
+	// qualifier names as values
+	"status:open", "sort:id", "label:prod", "no:label", "metadata:k:v", "title:a b", "author:René status:closed sort:edit", "status:",
+	// as many parts as no token may have
+	"a:b:c:d", "a:b:c:d:e f",
+	// the other quote character
+	"it's", "'", "'a'", "rock 'n' roll", "say \"hi\"", "\"", "\"a b\"", "6\" nail",
+	// white space
+	" x", "x ", " x y ", "a  b", "a\tb",
+	// operator-like characters
+	"-x", "a,b", "a, b", "!x", "a=b", "a|b", "(a)", "x*", "<x>", "~x", "+x", "-", ",", "a-b", "--flag", "a AND b", "a,b,c d", "participant=9ed1a", "x?", "a&b", "^a",
+}
+
+var c12ValueSeparators = []string{" ", " ", ":", "::", ":::", ", ", ",", "-", " - ", "=", ": ", " :", "'", "\""}
+
 func c12Word(rng *rand.Rand) string { return c12Words[rng.Intn(len(c12Words))] }
 
-func c12Value(rng *rand.Rand) (v string, quote bool) {
-	switch rng.Intn(6) {
+// c12SpecialValue: a listed value, or words joined by syntax-like separators with optional syntax at the edges.
+func c12SpecialValue(rng *rand.Rand) string {
+	for {
+		var v string
+		if rng.Intn(2) == 0 {
+			v = c12SpecialValues[rng.Intn(len(c12SpecialValues))]
+		} else {
+			n := 2 + rng.Intn(3)
+			quote := ""
+			var sb strings.Builder
+			if rng.Intn(5) == 0 {
+				sb.WriteString([]string{":", "::", " ", "-", ","}[rng.Intn(5)])
+			}
+			for i := 0; i < n; i++ {
+				if i > 0 {
+					sep := c12ValueSeparators[rng.Intn(len(c12ValueSeparators))]
+					if sep == "'" || sep == "\"" {
+						// one kind of quote character per value: there is no escape mechanism
+						if quote == "" {
+							quote = sep
+						}
+						sep = quote
+					}
+					sb.WriteString(sep)
+				}
+				if rng.Intn(6) == 0 {
+					sb.WriteString([]string{"status", "label", "sort", "title", "metadata", "no", "open", "id"}[rng.Intn(8)])
+				} else {
+					sb.WriteString(c12Word(rng))
+				}
+			}
+			if rng.Intn(5) == 0 {
+				sb.WriteString([]string{":", "::", " ", "-", ","}[rng.Intn(5)])
+			}
+			v = sb.String()
+		}
+		if refmodel.Expressible(v) && strings.TrimSpace(v) != "" {
+			return v
+		}
+	}
+}
+
+func c12Value(rng *rand.Rand) (v string, quote, sq bool) {
+	sq = rng.Intn(3) == 0
+	switch rng.Intn(9) {
 	case 0, 1:
 		n := 2 + rng.Intn(2)
 		parts := make([]string, n)
 		for i := range parts {
 			parts[i] = c12Word(rng)
 		}
-		return strings.Join(parts, " "), true
+		return strings.Join(parts, " "), true, sq
 	case 2:
-		return c12Word(rng), true // quoted single word
+		return c12Word(rng), true, sq // quoted single word
+	case 3, 4, 5:
+		return c12SpecialValue(rng), rng.Intn(2) == 0, sq
 	default:
-		return c12Word(rng), false
+		return c12Word(rng), false, sq
 	}
 }
 
@@ -176,20 +356,20 @@ func c12RandomTokens(rng *rand.Rand, allowSort bool) []refmodel.QToken {
 	var toks []refmodel.QToken
 	sorted := false
 	for i := 0; i < n; i++ {
-		v, qt := c12Value(rng)
+		v, qt, sq := c12Value(rng)
 		switch k := rng.Intn(11); k {
 		case 0:
 			toks = append(toks, refmodel.QToken{Kind: "status", Value: []string{"open", "closed"}[rng.Intn(2)]})
 		case 1:
-			toks = append(toks, refmodel.QToken{Kind: "author", Value: v, Quote: qt})
+			toks = append(toks, refmodel.QToken{Kind: "author", Value: v, Quote: qt, SQ: sq})
 		case 2:
-			toks = append(toks, refmodel.QToken{Kind: "actor", Value: v, Quote: qt})
+			toks = append(toks, refmodel.QToken{Kind: "actor", Value: v, Quote: qt, SQ: sq})
 		case 3:
-			toks = append(toks, refmodel.QToken{Kind: "participant", Value: v, Quote: qt})
+			toks = append(toks, refmodel.QToken{Kind: "participant", Value: v, Quote: qt, SQ: sq})
 		case 4:
-			toks = append(toks, refmodel.QToken{Kind: "label", Value: v, Quote: qt})
+			toks = append(toks, refmodel.QToken{Kind: "label", Value: v, Quote: qt, SQ: sq})
 		case 5:
-			toks = append(toks, refmodel.QToken{Kind: "title", Value: v, Quote: qt})
+			toks = append(toks, refmodel.QToken{Kind: "title", Value: v, Quote: qt, SQ: sq})
 		case 6:
 			toks = append(toks, refmodel.QToken{Kind: "no", Value: "label"})
 		case 7:
@@ -198,12 +378,86 @@ func c12RandomTokens(rng *rand.Rand, allowSort bool) []refmodel.QToken {
 				toks = append(toks, refmodel.QToken{Kind: "sort", Value: refmodel.SortValues[rng.Intn(len(refmodel.SortValues))]})
 			}
 		case 8:
-			toks = append(toks, refmodel.QToken{Kind: "metadata", Key: []string{"origin", "github-id", "k", "Team"}[rng.Intn(4)], Value: v, Quote: qt})
+			key := []string{"origin", "github-id", "k", "Team"}[rng.Intn(4)]
+			if rng.Intn(4) == 0 {
+				key = c12SpecialValue(rng) // a quoted sub-qualifier
+			}
+			toks = append(toks, refmodel.QToken{Kind: "metadata", Key: key, Value: v, Quote: qt, SQ: sq})
 		default:
-			toks = append(toks, refmodel.QToken{Kind: "search", Value: v, Quote: qt})
+			toks = append(toks, refmodel.QToken{Kind: "search", Value: v, Quote: qt, SQ: sq})
 		}
 	}
 	return toks
+}
+
+// c12ValueClass names how a value is written when that is anything but a bare word or a double-quoted phrase of
+// plain words: "<style>-<feature>", style = bare | double-quoted | single-quoted.
+func c12ValueClass(v string, style string) string {
+	f := refmodel.QValueFeature(v)
+	switch style {
+	case "bare":
+		if f == "plain" {
+			return ""
+		}
+		return "bare-" + f
+	case "dq":
+		if f == "plain" || f == "space" {
+			return ""
+		}
+		return "double-quoted-" + f
+	case "sq":
+		return "single-quoted-" + f
+	}
+	return style
+}
+
+// c12ParsesAsDenoted: the text of the tokens is accepted by query.Parse with the meaning the tokens have.
+func c12ParsesAsDenoted(toks []refmodel.QToken) bool {
+	text, err := refmodel.RenderQuery(toks)
+	if err != nil {
+		return true
+	}
+	e, err := refmodel.Denotes(toks)
+	if err != nil {
+		return true
+	}
+	q, perr, p := c12ParseSafe(text)
+	if p != nil || perr != nil {
+		return false
+	}
+	comp, _ := c12CompareParsed(q, e)
+	return comp == ""
+}
+
+// c12CulpritClass: the value class of the first token that is not parsed as denoted when it stands alone
+// ("" when there is none or when it is an ordinary value): the key of a round-trip failure names it, so that the
+// key does not depend on what else the random query contained.
+func c12CulpritClass(toks []refmodel.QToken) string {
+	for _, t := range toks {
+		if c12ParsesAsDenoted([]refmodel.QToken{t}) {
+			continue
+		}
+		if t.Kind == "metadata" {
+			t2 := t
+			t2.Key = "k"
+			if c12ParsesAsDenoted([]refmodel.QToken{t2}) {
+				kt := refmodel.QToken{Value: t.Key, SQ: t.SQ}
+				if c := c12ValueClass(t.Key, kt.QuoteStyle()); c != "" {
+					return c + "-metadata-key"
+				}
+				return ""
+			}
+		}
+		return c12ValueClass(t.Value, t.QuoteStyle())
+	}
+	return ""
+}
+
+func c12KeySuffix(toks []refmodel.QToken) string {
+	if c := c12CulpritClass(toks); c != "" {
+		return "/" + c
+	}
+	return ""
 }
 
 func c12StatusName(s common.Status) string {
@@ -271,21 +525,39 @@ func c12CompareParsed(q *query.Query, e refmodel.QExpect) (component, detail str
 	return "", ""
 }
 
-func c12TokenShape(toks []refmodel.QToken, e refmodel.QExpect) string {
-	quoted, multi, uni := 0, 0, 0
+// c12TokenFeatures: quote styles used and the features of the values (and metadata keys) of a token list.
+func c12TokenFeatures(toks []refmodel.QToken) (dq, sq bool, features []string) {
 	for _, t := range toks {
-		if t.Quote {
-			quoted = 1
+		if t.Kind == "status" || t.Kind == "no" || t.Kind == "sort" {
+			continue
 		}
-		if strings.Contains(t.Value, " ") {
-			multi = 1
+		vals := []refmodel.QToken{t}
+		if t.Kind == "metadata" {
+			vals = append(vals, refmodel.QToken{Value: t.Key, SQ: t.SQ})
 		}
+		for _, v := range vals {
+			switch v.QuoteStyle() {
+			case "dq":
+				dq = true
+			case "sq":
+				sq = true
+			}
+			features = append(features, refmodel.QValueFeature(v.Value))
+		}
+	}
+	return
+}
+
+func c12TokenShape(toks []refmodel.QToken, e refmodel.QExpect) string {
+	uni := 0
+	for _, t := range toks {
 		for _, r := range t.Value {
 			if r > unicode.MaxASCII {
 				uni = 1
 			}
 		}
 	}
+	dq, sq, features := c12TokenFeatures(toks)
 	s := "none"
 	if e.HasSort {
 		s = e.OrderBy
@@ -293,40 +565,106 @@ func c12TokenShape(toks []refmodel.QToken, e refmodel.QExpect) string {
 			s += "-desc"
 		}
 	}
-	return fmt.Sprintf("rt:%s/sort=%s/q%d/m%d/u%d", strings.Join(e.Kinds(), "+"), s, quoted, multi, uni)
+	b := func(x bool) int {
+		if x {
+			return 1
+		}
+		return 0
+	}
+	return fmt.Sprintf("rt:%s/sort=%s/dq%d/sq%d/u%d/%s", strings.Join(e.Kinds(), "+"), s, b(dq), b(sq), uni, c12TopFeature(features))
+}
+
+// c12RoundTripOne renders the tokens, checks the harness against itself (the reference reader of the text must
+// find the structure the tokens were rendered from) and then query.Parse against both.
+func c12RoundTripOne(r *mon.Run, toks []refmodel.QToken, shapePrefix string) (text string) {
+	text, err := refmodel.RenderQuery(toks)
+	if err != nil {
+		r.Inconclusive("C12 harness: cannot render: " + err.Error())
+		return ""
+	}
+	e, err := refmodel.Denotes(toks)
+	if err != nil {
+		r.Inconclusive("C12 harness: generated an ill-formed query: " + err.Error())
+		return ""
+	}
+	if ref := refmodel.ParseDocQuery(text, true); ref.Verdict != refmodel.QWellFormed || !reflect.DeepEqual(ref.Expect, e) {
+		r.Inconclusive(fmt.Sprintf("C12 harness: renderer and reference reader disagree on %q: %s %s %+v, rendered from %+v", text, ref.Verdict, ref.Class, ref.Expect, e))
+		return ""
+	}
+	q, perr, p := c12ParseSafe(text)
+	r.Case(shapePrefix+c12TokenShape(toks, e), len(toks) > 0)
+	r.Count("roundtrip_queries", 1)
+	dq, sq, features := c12TokenFeatures(toks)
+	if dq {
+		r.Count("roundtrip_queries_with_double_quoted_values", 1)
+	}
+	if sq {
+		r.Count("roundtrip_queries_with_single_quoted_values", 1)
+	}
+	for _, f := range features {
+		r.Seen("roundtrip_value_features", f)
+	}
+	if top := c12TopFeature(features); top != "quoted-plain" && top != "quoted-space" && top != "nothing-quoted" {
+		r.Count("roundtrip_queries_with_syntax_characters_in_values", 1)
+	}
+	switch {
+	case p != nil:
+		r.Violation("parse-panic", fmt.Sprintf("query.Parse(%q) panicked: %v", text, p), map[string]any{"input": text})
+	case perr != nil:
+		r.Violation("roundtrip/rejected/"+c12ErrClass(perr)+c12KeySuffix(toks), fmt.Sprintf("documented query %q rejected: %v", text, perr), map[string]any{"input": text, "tokens": toks})
+	default:
+		if comp, detail := c12CompareParsed(q, e); comp != "" {
+			r.Violation("roundtrip/"+comp+c12KeySuffix(toks), fmt.Sprintf("query %q parsed to %s", text, detail), map[string]any{"input": text, "tokens": toks})
+		}
+	}
+	return text
+}
+
+// c12Battery: every listed special value (and a plain one) as the value of every qualifier that takes free
+// values, as a metadata key and as a free-text term, in both quote styles, alone and between other tokens.
+// Independent of the seed.
+func c12Battery() [][]refmodel.QToken {
+	var out [][]refmodel.QToken
+	values := append([]string{"x", "Good first issue"}, c12SpecialValues...)
+	for _, v := range values {
+		if !refmodel.Expressible(v) {
+			continue
+		}
+		for _, sq := range []bool{false, true} {
+			var forms []refmodel.QToken
+			for _, kind := range []string{"search", "author", "actor", "participant", "label", "title"} {
+				forms = append(forms, refmodel.QToken{Kind: kind, Value: v, Quote: true, SQ: sq})
+			}
+			forms = append(forms,
+				refmodel.QToken{Kind: "metadata", Key: "origin", Value: v, Quote: true, SQ: sq},
+				refmodel.QToken{Kind: "metadata", Key: v, Value: "v", SQ: sq},
+				refmodel.QToken{Kind: "metadata", Key: v, Value: v, Quote: true, SQ: sq})
+			for _, t := range forms {
+				out = append(out, []refmodel.QToken{t})
+				out = append(out, []refmodel.QToken{{Kind: "status", Value: "open"}, t, {Kind: "sort", Value: "id-desc"}})
+				out = append(out, []refmodel.QToken{t, t, {Kind: "search", Value: "zq17xk"}})
+			}
+		}
+	}
+	return out
 }
 
 func c12RoundTrip(r *mon.Run) {
-	n := r.Pick(2_000, 200_000)
+	battery := c12Battery()
+	parallel((len(battery)+499)/500, func(k int) int {
+		for i := k * 500; i < (k+1)*500 && i < len(battery); i++ {
+			c12RoundTripOne(r, battery[i], "battery/")
+			r.Count("roundtrip_battery_queries", 1)
+		}
+		return 0
+	})
+	n := r.Pick(4_000, 200_000)
 	const chunk = 1000
 	parallel((n+chunk-1)/chunk, func(k int) int {
 		rng := mon.Rng(r.Seed, "c12-roundtrip", k)
 		for i := k * chunk; i < (k+1)*chunk && i < n; i++ {
-			toks := c12RandomTokens(rng, true)
-			text, err := refmodel.RenderQuery(toks)
-			if err != nil {
-				r.Inconclusive("C12 harness: cannot render: " + err.Error())
-				continue
-			}
-			e, err := refmodel.Denotes(toks)
-			if err != nil {
-				r.Inconclusive("C12 harness: generated an ill-formed query: " + err.Error())
-				continue
-			}
-			q, perr, p := c12ParseSafe(text)
-			r.Case(c12TokenShape(toks, e), len(toks) > 0)
-			r.Count("roundtrip_queries", 1)
-			switch {
-			case p != nil:
-				r.Violation("parse-panic", fmt.Sprintf("query.Parse(%q) panicked: %v", text, p), map[string]any{"input": text})
-			case perr != nil:
-				r.Violation("roundtrip/rejected/"+c12ErrClass(perr), fmt.Sprintf("documented query %q rejected: %v", text, perr), map[string]any{"input": text, "tokens": toks})
-			default:
-				if comp, detail := c12CompareParsed(q, e); comp != "" {
-					r.Violation("roundtrip/"+comp, fmt.Sprintf("query %q parsed to %s", text, detail), map[string]any{"input": text, "tokens": toks})
-				}
-			}
-			if i < 2 {
+			text := c12RoundTripOne(r, c12RandomTokens(rng, true), "")
+			if i < 4 {
 				r.Sample(map[string]any{"roundtrip": text})
 			}
 		}
@@ -357,6 +695,19 @@ func c12MalformedPieces() []c12Bad {
 	add("unknown-sort", `sort:foo`, `sort:id-up`, `sort:ascending`, `sort:"id desc"`, `sort:edit-time`)
 	add("unknown-status", `status:done`, `status:opened`, `status:"open closed"`)
 	add("unknown-no", `no:title`, `no:labels`, `no:author`)
+	// a quoted part next to the defect, full of what would be a defect outside of the quotes: the quotes must
+	// neither hide the defect nor be taken for it
+	add("unbalanced-quote", `title:"std::string`, `"a::b" "c::d`, `label:"a:b":"c`)
+	add("empty-value", `title:"a::b":`, `metadata:"a::b":`, `metadata:k:"a::b":`)
+	add("empty-qualifier", `:"a::b"`, `:title:"a::b"`)
+	add("empty-middle-part", `title::"a::b"`, `metadata:k::"a::b"`, `metadata::"k::k":v`, `metadata:"k::k"::"v::v"`, `"a::b"::c`)
+	add("unknown-qualifier", `titles:"a::b"`, `x:"status:open"`)
+	add("unknown-sub-qualifier", `title:"a:b":c`, `label:"a::b":"c::d"`, `status:open:"::"`)
+	add("metadata-without-value", `metadata:"a::b"`, `metadata:"k:v"`)
+	add("too-many-parts", `metadata:a:"b::c":d`, `"a:b":"c:d":"e:f":"g:h"`)
+	add("unknown-sort", `sort:"id:desc"`, `sort:"sort:id"`)
+	add("unknown-status", `status:"status:open"`, `status:"open:closed"`, `status:"::"`)
+	add("unknown-no", `no:"no:label"`, `no:"label:"`)
 	for _, a := range refmodel.SortValues {
 		for _, b := range []string{"id", "creation-asc", "edit-desc"} {
 			add("two-sorts", "sort:"+a+" sort:"+b)
@@ -367,6 +718,12 @@ func c12MalformedPieces() []c12Bad {
 
 func c12Malformed(r *mon.Run) {
 	pieces := c12MalformedPieces()
+	// harness against itself: the reference reader must find every listed piece malformed
+	for _, bad := range pieces {
+		if ref := refmodel.JudgeDocQuery(bad.Piece); ref.Verdict != refmodel.QMalformed {
+			r.Inconclusive(fmt.Sprintf("C12 harness: the reference reader finds the malformed piece %q (%s) %s %s", bad.Piece, bad.Class, ref.Verdict, ref.Class))
+		}
+	}
 	contexts := r.Pick(6, 60)
 	total := len(pieces) * contexts
 	for i := 0; i < total; i++ {
@@ -417,12 +774,28 @@ type c12Person struct {
 }
 
 var c12People = [][]c12Person{
-	{{"René Descartes", "rdescartes"}, {"ÉMILIE du Châtelet", "Emilie-C"}},
-	{{"ada LOVELACE King", "AdaL"}, {"Björn Ångström", ""}},
+	{{"René Descartes", "rdescartes"}, {"ÉMILIE du Châtelet", "Emilie-C"}, {"Dr. Jo O'Neil: QA::lead, ops", "jo:neil"}},
+	{{"ada LOVELACE King", "AdaL"}, {"Björn Ångström", ""}, {"Max \"the::fixer\" Payne -jr", "max,p-1"}},
 }
 
 var c12LabelPool = []string{"prod", "Good first issue", "bug", "ui/ux", "émoji", "wontfix"}
+
+// labels, title chunks and metadata values made of what is syntax in a query (outside of quotes)
+var c12SpecialLabels = []string{"area::core", "a:b", "prio: high, now", "it's", "say \"hi\"", "-wip", "status:open", ":x:", "label:prod", "a,b"}
 var c12TitleWords = []string{"Critical", "crash", "Typo", "in", "string", "Login", "fails", "when", "ÉTÉ", "naïve", "parser", "Timeout", "on", "push", "slow", "render"}
+var c12TitleSpecials = []string{"std::string", "a:b", "::", "it's", "\"quoted\"", "-flag", "status:open", "x,y", "label:prod", ":lead", "trail:", "a:::b", "sort:id", "(paren)", "k=v", "no:label", "-", "O'Neil:"}
+var c12MetaOrigins = []string{"github", "gitlab", "a::b", "http://x.y/z", "it's, ok", "status:open"}
+var c12MetaTeams = []string{"red", "blue", "-red", "red:blue", "Red \"A\" team"}
+
+// a metadata key that needs quotes in a query
+const c12SpecialMetaKey = "ext::id, v2"
+
+func c12AnyLabel(rng *rand.Rand) string {
+	if rng.Intn(3) == 0 {
+		return c12SpecialLabels[rng.Intn(len(c12SpecialLabels))]
+	}
+	return c12LabelPool[rng.Intn(len(c12LabelPool))]
+}
 
 type c12Pop struct {
 	idx     int
@@ -493,6 +866,11 @@ func (p *c12Pop) text(rng *rand.Rand, nWords int) string {
 			plant(m)
 		}
 	}
+	// words made of query syntax, as separate words (the markers stay words of their own)
+	for n := rng.Intn(3); n > 0 && rng.Intn(2) == 0; n-- {
+		at := rng.Intn(len(parts) + 1)
+		parts = append(parts[:at], append([]string{c12TitleSpecials[rng.Intn(len(c12TitleSpecials))]}, parts[at:]...)...)
+	}
 	return strings.Join(parts, " ")
 }
 
@@ -540,7 +918,7 @@ func c12BuildPop(seed int64, idx int) (*c12Pop, error) {
 	randomSpecs := func(n int) []world.OpSpec {
 		var specs []world.OpSpec
 		for k := 0; k < n; k++ {
-			a := rng.Intn(2)
+			a := rng.Intn(3)
 			switch rng.Intn(9) {
 			case 0, 1:
 				specs = append(specs, world.OpSpec{Kind: "comment", Text: p.text(rng, 2+rng.Intn(5)), Author: a})
@@ -551,7 +929,7 @@ func c12BuildPop(seed int64, idx int) (*c12Pop, error) {
 			case 4:
 				specs = append(specs, world.OpSpec{Kind: "open", Author: a})
 			case 5, 6:
-				specs = append(specs, world.OpSpec{Kind: "forcelabels", Add: []string{c12LabelPool[rng.Intn(len(c12LabelPool))]}, Remove: []string{c12LabelPool[rng.Intn(len(c12LabelPool))]}, Author: a})
+				specs = append(specs, world.OpSpec{Kind: "forcelabels", Add: []string{c12AnyLabel(rng)}, Remove: []string{c12AnyLabel(rng)}, Author: a})
 			case 7:
 				specs = append(specs, world.OpSpec{Kind: "edit", Text: p.text(rng, 2+rng.Intn(4)), Author: a})
 			case 8:
@@ -566,13 +944,16 @@ func c12BuildPop(seed int64, idx int) (*c12Pop, error) {
 	for i := 0; i < nBugs; i++ {
 		rep := w.Replicas[rng.Intn(2)]
 		meta := map[string]string{}
-		if k := rng.Intn(3); k < 2 {
-			meta["origin"] = []string{"github", "gitlab"}[k]
+		if rng.Intn(3) < 2 {
+			meta["origin"] = c12MetaOrigins[rng.Intn(len(c12MetaOrigins))]
 		}
-		if k := rng.Intn(3); k < 2 {
-			meta["team"] = []string{"red", "blue"}[k]
+		if rng.Intn(3) < 2 {
+			meta["team"] = c12MetaTeams[rng.Intn(len(c12MetaTeams))]
 		}
-		b, _, err := bug.Create(rep.Authors[rng.Intn(2)], w.Now(), p.text(rng, 2+rng.Intn(4)), p.text(rng, 3+rng.Intn(5)), nil, meta)
+		if rng.Intn(4) == 0 {
+			meta[c12SpecialMetaKey] = []string{"1", "a::b"}[rng.Intn(2)]
+		}
+		b, _, err := bug.Create(rep.Authors[rng.Intn(len(rep.Authors))], w.Now(), p.text(rng, 2+rng.Intn(4)), p.text(rng, 3+rng.Intn(5)), nil, meta)
 		if err != nil {
 			return fail(err)
 		}
@@ -653,14 +1034,14 @@ func c12BuildPop(seed int64, idx int) (*c12Pop, error) {
 		if err != nil {
 			return fail(fmt.Errorf("resolve: %w", err))
 		}
-		author := r0.Authors[rng.Intn(2)]
+		author := r0.Authors[rng.Intn(len(r0.Authors))]
 		switch rng.Intn(5) {
 		case 0, 1:
 			_, _, err = bc.AddCommentRaw(author, w.Now(), p.text(rng, 3)+" "+p.rare[rng.Intn(len(p.rare))], nil, nil)
 		case 2:
 			_, err = bc.SetTitleRaw(author, w.Now(), p.text(rng, 3), nil)
 		case 3:
-			_, err = bc.ForceChangeLabelsRaw(author, w.Now(), []string{c12LabelPool[rng.Intn(len(c12LabelPool))]}, nil, nil)
+			_, err = bc.ForceChangeLabelsRaw(author, w.Now(), []string{c12AnyLabel(rng)}, nil, nil)
 		case 4:
 			snap := bc.Snapshot()
 			_, err = bc.EditCommentRaw(author, w.Now(), snap.Comments[len(snap.Comments)-1].CombinedId(), p.text(rng, 3), nil)
@@ -721,17 +1102,40 @@ func c12BuildPop(seed int64, idx int) (*c12Pop, error) {
 
 func (p *c12Pop) close() { p.w.Close() }
 
+// generic replaces the population's markers by letters.
+func (p *c12Pop) generic(term string) string {
+	for i, m := range p.common {
+		term = strings.ReplaceAll(term, m, []string{"M", "N"}[i%2])
+	}
+	return term
+}
+
+// personDesignator: a way to name a person (or nobody). Names and logins contain quote characters, colons and
+// commas: the designator is whatever part was drawn, rendered between quotes where the grammar requires it.
 func (p *c12Pop) personDesignator(rng *rand.Rand) string {
+	for {
+		if d := p.personDesignator1(rng); refmodel.Expressible(d) {
+			return d
+		}
+	}
+}
+
+func (p *c12Pop) personDesignator1(rng *rand.Rand) string {
 	if rng.Intn(8) == 0 {
 		return []string{"nobody", "Leibniz", "zzzz"}[rng.Intn(3)]
 	}
 	pe := p.plist[rng.Intn(len(p.plist))]
-	switch rng.Intn(5) {
+	switch rng.Intn(6) {
 	case 0: // full name
 		return c12VaryCase(rng, pe.Name)
 	case 1: // one word of the name
 		ws := strings.Fields(pe.Name)
 		return c12VaryCase(rng, ws[rng.Intn(len(ws))])
+	case 5: // any piece of the name (may start or end with a space or a colon)
+		if sub := c12Substring(rng, pe.Name); sub != "" {
+			return c12VaryCase(rng, sub)
+		}
+		return c12VaryCase(rng, pe.Name)
 	case 2:
 		if pe.Login != "" {
 			return c12VaryCase(rng, pe.Login)
@@ -749,7 +1153,43 @@ func (p *c12Pop) personDesignator(rng *rand.Rand) string {
 	}
 }
 
+// c12Substring: a random piece (2..14 characters) of s that is not only white space; "" when there is none.
+func c12Substring(rng *rand.Rand, s string) string {
+	rs := []rune(s)
+	if len(rs) < 2 {
+		return ""
+	}
+	for try := 0; try < 8; try++ {
+		n := 2 + rng.Intn(13)
+		if n > len(rs) {
+			n = len(rs)
+		}
+		at := rng.Intn(len(rs) - n + 1)
+		sub := string(rs[at : at+n])
+		if strings.TrimSpace(sub) != "" && refmodel.Expressible(sub) {
+			return sub
+		}
+	}
+	return ""
+}
+
 func (p *c12Pop) randomQuery(rng *rand.Rand) []refmodel.QToken {
+	toks := p.randomQuery1(rng)
+	// quote style: the renderer quotes where it must; a third of the queries prefers single quotes and one in six
+	// quotes every value
+	sq, force := rng.Intn(3) == 0, rng.Intn(6) == 0
+	for i := range toks {
+		switch toks[i].Kind {
+		case "status", "no", "sort":
+		default:
+			toks[i].SQ = sq
+			toks[i].Quote = force
+		}
+	}
+	return toks
+}
+
+func (p *c12Pop) randomQuery1(rng *rand.Rand) []refmodel.QToken {
 	var toks []refmodel.QToken
 	pct := func(n int) bool { return rng.Intn(100) < n }
 	if pct(30) {
@@ -768,10 +1208,14 @@ func (p *c12Pop) randomQuery(rng *rand.Rand) []refmodel.QToken {
 	}
 	if pct(25) {
 		lab := func() string {
-			if pct(12) {
+			switch {
+			case pct(10):
 				return "nonexistent"
+			case pct(6):
+				// nearly a label: a piece of one, or one with something cut off or added at a colon
+				return []string{"area", "area:core", "area::core:", "core", "a", "prio: high", "status", ":x", "x", "say hi", "wip"}[rng.Intn(11)]
 			}
-			return c12LabelPool[rng.Intn(len(c12LabelPool))]
+			return c12AnyLabel(rng)
 		}
 		toks = append(toks, refmodel.QToken{Kind: "label", Value: lab()})
 		if pct(40) {
@@ -783,14 +1227,27 @@ func (p *c12Pop) randomQuery(rng *rand.Rand) []refmodel.QToken {
 			if pct(10) {
 				return "absentword"
 			}
-			ws := strings.Fields(p.bugs[rng.Intn(len(p.bugs))].Title)
+			title := p.bugs[rng.Intn(len(p.bugs))].Title
+			if pct(25) {
+				// any piece of a title: may start or end inside a word, with a space, a colon, a quote
+				if sub := c12Substring(rng, title); sub != "" {
+					return c12VaryCase(rng, sub)
+				}
+			}
+			if pct(20) {
+				return c12TitleSpecials[rng.Intn(len(c12TitleSpecials))]
+			}
+			ws := strings.Fields(title)
 			at := rng.Intn(len(ws))
 			n := 1
 			if pct(35) && at+1 < len(ws) {
 				n = 2
 			}
 			s := strings.Join(ws[at:at+n], " ")
-			if strings.ContainsAny(s, "\"':") {
+			if !refmodel.Expressible(s) {
+				s = ws[at]
+			}
+			if !refmodel.Expressible(s) {
 				return "crash"
 			}
 			return c12VaryCase(rng, s)
@@ -802,10 +1259,16 @@ func (p *c12Pop) randomQuery(rng *rand.Rand) []refmodel.QToken {
 	}
 	if pct(20) {
 		md := func() refmodel.QToken {
-			if pct(50) {
-				return refmodel.QToken{Kind: "metadata", Key: "origin", Value: []string{"github", "gitlab", "bitbucket"}[rng.Intn(3)]}
+			switch {
+			case pct(12):
+				return refmodel.QToken{Kind: "metadata", Key: c12SpecialMetaKey, Value: []string{"1", "a::b", "a:b"}[rng.Intn(3)]}
+			case pct(5):
+				// nearly the key
+				return refmodel.QToken{Kind: "metadata", Key: []string{"ext", "ext::id", "ext::id, v2 ", "id, v2"}[rng.Intn(4)], Value: "1"}
+			case pct(50):
+				return refmodel.QToken{Kind: "metadata", Key: "origin", Value: append([]string{"bitbucket", "a:b", "a::b:", "http", "status"}, c12MetaOrigins...)[rng.Intn(5+len(c12MetaOrigins))]}
 			}
-			return refmodel.QToken{Kind: "metadata", Key: "team", Value: []string{"red", "blue", "Red"}[rng.Intn(3)]}
+			return refmodel.QToken{Kind: "metadata", Key: "team", Value: append([]string{"Red", "red:", "red blue"}, c12MetaTeams...)[rng.Intn(3+len(c12MetaTeams))]}
 		}
 		toks = append(toks, md())
 		if pct(40) {
@@ -842,6 +1305,11 @@ func (p *c12Pop) randomQuery(rng *rand.Rand) []refmodel.QToken {
 		if ph := p.phrase(rng); ph != "" {
 			toks = append(toks, refmodel.QToken{Kind: "search", Value: ph})
 		}
+	}
+	if pct(6) {
+		// a quoted full-text term made of query syntax: same, nothing asserted about what it finds
+		m := p.common[rng.Intn(len(p.common))]
+		toks = append(toks, refmodel.QToken{Kind: "search", Value: []string{"std::string", "a:b", "::", "status:open", m + ":", ":" + m, m + "::" + m, "-" + m, m + "," + m, "it's", "title:" + m, m + " - " + m, "(paren)", "k=v"}[rng.Intn(14)]})
 	}
 	if pct(75) {
 		toks = append(toks, refmodel.QToken{Kind: "sort", Value: refmodel.SortValues[rng.Intn(len(refmodel.SortValues))]})
@@ -905,11 +1373,11 @@ func (p *c12Pop) evalOne(r obsSink, toks []refmodel.QToken, verbose bool) {
 		return
 	}
 	if perr != nil {
-		r.Violation("roundtrip/rejected/"+c12ErrClass(perr), fmt.Sprintf("documented query %q rejected: %v", text, perr), replay)
+		r.Violation("roundtrip/rejected/"+c12ErrClass(perr)+c12KeySuffix(toks), fmt.Sprintf("documented query %q rejected: %v", text, perr), replay)
 		return
 	}
 	if comp, detail := c12CompareParsed(q, e); comp != "" {
-		r.Violation("roundtrip/"+comp, fmt.Sprintf("query %q parsed to %s", text, detail), replay)
+		r.Violation("roundtrip/"+comp+c12KeySuffix(toks), fmt.Sprintf("query %q parsed to %s", text, detail), replay)
 		return
 	}
 	got, qerr, qp := c12QuerySafe(p.rc, q)
@@ -918,24 +1386,40 @@ func (p *c12Pop) evalOne(r obsSink, toks []refmodel.QToken, verbose bool) {
 		return
 	}
 	if qerr != nil {
-		r.Violation("eval/error", fmt.Sprintf("Query(%q) failed: %v", text, qerr), replay)
+		key := "eval/error"
+		for _, t := range e.Search {
+			if !refmodel.QPlainTerm(t) && !strings.Contains(key, "/punctuated") {
+				// what the term finds is not asserted, that the query can be evaluated is
+				key += "/punctuated-search-term"
+			}
+		}
+		if len(toks) == 1 {
+			r.Seen("punctuated_search_terms_alone(what they find is not judged)", p.generic(e.Search[0])+" => error: "+qerr.Error())
+		}
+		r.Violation(key, fmt.Sprintf("Query(%q) failed: %v (search terms %q)", text, qerr, e.Search), replay)
+		r.Count("queries_failed", 1)
 		return
 	}
 
-	phrase := false
+	// full-text terms other than a single run of letters and digits: nothing is asserted about what they find
+	phrase, multiWord := false, false
 	for _, t := range e.Search {
-		phrase = phrase || strings.Contains(t, " ")
+		phrase = phrase || !refmodel.QPlainTerm(t)
+		multiWord = multiWord || strings.Contains(t, " ")
 	}
 	kindsOf := strings.Join(e.Kinds(), "+")
-	if phrase {
+	switch {
+	case multiWord:
 		kindsOf += "(multi-word-term)"
+	case phrase:
+		kindsOf += "(punctuated-term)"
 	}
 	// the same parsed query evaluated again on the unchanged repository must give the same answer
 	again, qerr2, qp2 := c12QuerySafe(p.rc, q)
 	r.Count("repeat_evaluations", 1)
 	if qp2 != nil || qerr2 != nil || fmt.Sprint(again) != fmt.Sprint(got) {
 		nrKey := "eval/not-repeatable/" + kindsOf
-		if phrase {
+		if multiWord {
 			nrKey = "eval/not-repeatable/multi-word-search-term"
 		}
 		r.Violation(nrKey, fmt.Sprintf("Query(%q) evaluated twice with the same parsed query on an unchanged repository: first %d bugs %v, then %d bugs %v (err=%v panic=%v); search terms of the query object are now %q", text, len(got), c12ShortIds(got), len(again), c12ShortIds(again), qerr2, qp2, []string(q.Search)), replay)
@@ -970,6 +1454,29 @@ func (p *c12Pop) evalOne(r obsSink, toks []refmodel.QToken, verbose bool) {
 	kinds := kindsOf
 	if kinds == "" {
 		kinds = "none"
+	}
+	if phrase && !multiWord && len(toks) == 1 {
+		// evidence only: what a lone punctuated term does (M = a marker planted in many bugs)
+		hits := 0
+		for _, b := range p.bugs {
+			if refmodel.SearchHit(b, p.common[0]) {
+				hits++
+			}
+		}
+		out := fmt.Sprintf("%d of %d bugs", len(got), len(p.bugs))
+		switch {
+		case len(got) == 0:
+			out = "nothing"
+		case len(got) == len(p.bugs):
+			out = "every bug"
+		case len(got) == hits && strings.Contains(e.Search[0], p.common[0]):
+			out = "as many bugs as contain M"
+		case len(got) == len(p.bugs)-hits && strings.Contains(e.Search[0], p.common[0]):
+			out = "as many bugs as do not contain M"
+		default:
+			out = "some bugs"
+		}
+		r.Seen("punctuated_search_terms_alone(what they find is not judged)", p.generic(e.Search[0])+" => "+out)
 	}
 	searchWide := false
 	for _, t := range e.Search {
@@ -1053,7 +1560,29 @@ func (p *c12Pop) evalOne(r obsSink, toks []refmodel.QToken, verbose bool) {
 		size = "1"
 	}
 	nontrivial := (kinds != "none" && len(must) > 0) || (e.HasSort && len(must) >= 2)
-	r.Case(fmt.Sprintf("eval:%s/%s/%s", kinds, sortSig, size), nontrivial)
+	// values made of query syntax: which filters carried them, and did they select anything
+	dq, sq, features := c12TokenFeatures(toks)
+	special := ""
+	if top := c12TopFeature(features); top != "quoted-plain" && top != "quoted-space" && top != "nothing-quoted" {
+		special = "/" + top
+		if sq {
+			special += "(sq)"
+		}
+		r.Count("queries_with_syntax_characters_in_values", 1)
+		if len(must) > 0 && len(must) < len(p.bugs) {
+			r.Count("queries_with_syntax_characters_in_values_selecting_some_bugs", 1)
+		}
+		for _, t := range toks {
+			if f := refmodel.QValueFeature(t.Value); f != "plain" && f != "space" {
+				r.Seen("evaluated_syntax_value_classes", t.Kind+":"+f)
+				if len(must) > 0 {
+					r.Seen("evaluated_syntax_value_classes_with_matches", t.Kind+":"+f)
+				}
+			}
+		}
+	}
+	_ = dq
+	r.Case(fmt.Sprintf("eval:%s/%s/%s%s", kinds, sortSig, size, special), nontrivial)
 	r.Count("queries_evaluated", 1)
 	r.Count("bugs_returned", len(got))
 	if len(e.Search) > 0 {
@@ -1162,8 +1691,44 @@ func c12RunPop(r obsSink, pc c12PopCase) {
 			battery = append(battery, []refmodel.QToken{{Kind: kind, Value: pe.Name}})
 		}
 	}
-	for _, l := range c12LabelPool {
+	for _, l := range append(append([]string{}, c12LabelPool...), c12SpecialLabels...) {
 		battery = append(battery, []refmodel.QToken{{Kind: "label", Value: l}})
+		if refmodel.QValueFeature(l) != "plain" {
+			battery = append(battery, []refmodel.QToken{{Kind: "label", Value: l, Quote: true, SQ: true}})
+		}
+	}
+	for _, sq := range []bool{false, true} {
+		for _, t := range c12TitleSpecials {
+			battery = append(battery, []refmodel.QToken{{Kind: "title", Value: t, Quote: true, SQ: sq}})
+		}
+		for _, v := range c12MetaOrigins {
+			battery = append(battery, []refmodel.QToken{{Kind: "metadata", Key: "origin", Value: v, SQ: sq}})
+		}
+		for _, v := range c12MetaTeams {
+			battery = append(battery, []refmodel.QToken{{Kind: "metadata", Key: "team", Value: v, SQ: sq}})
+		}
+		for _, v := range []string{"1", "a::b", "a:b"} {
+			battery = append(battery, []refmodel.QToken{{Kind: "metadata", Key: c12SpecialMetaKey, Value: v, SQ: sq}})
+		}
+		for _, pe := range p.plist {
+			for _, d := range []string{pe.Name, pe.Login} {
+				if refmodel.Expressible(d) && refmodel.QValueFeature(d) != "plain" && refmodel.QValueFeature(d) != "space" {
+					for _, kind := range []string{"author", "actor", "participant"} {
+						battery = append(battery, []refmodel.QToken{{Kind: kind, Value: d, SQ: sq}})
+					}
+				}
+			}
+		}
+	}
+	// pieces of names with syntax in them
+	for _, d := range []string{"O'Neil:", "QA::lead", "QA::lead,", ": QA::", "jo:neil", "\"the::fixer\"", "the::fixer", "-jr", "max,p-1", ",p-", "O'Neil::", "QA:lead", "the:fixer"} {
+		for _, kind := range []string{"author", "actor", "participant"} {
+			battery = append(battery, []refmodel.QToken{{Kind: kind, Value: d}})
+		}
+	}
+	// full-text terms made of query syntax (nothing asserted about what they find)
+	for _, m := range []string{"std::string", "::", ":", "status:open", p.common[0] + ":", ":" + p.common[0], "-" + p.common[0], p.common[0] + "::" + p.common[1], "it's", "\"quoted\"", "-", "title:" + p.common[0], "a,b", "+" + p.common[0], "~", "(", "^2", p.common[0] + "^", "*", "a\\b", p.common[0] + "~2", "/x/", "[a TO b]", "{", "&&", "||", "!", ">=" + p.common[0]} {
+		battery = append(battery, []refmodel.QToken{{Kind: "search", Value: m}})
 	}
 	battery = append(battery, []refmodel.QToken{{Kind: "no", Value: "label"}}, []refmodel.QToken{{Kind: "status", Value: "open"}}, []refmodel.QToken{{Kind: "status", Value: "closed"}})
 	for _, t := range battery {
@@ -1252,7 +1817,7 @@ func runC12(tier, replay string) int {
 	r.Extra("malformed_classes", keys)
 	// forms outside the documented language: recorded, never judged
 	beyond := map[string]string{}
-	for _, f := range []string{`STATUS:open`, `status:OPEN`, `Sort:id`, `sort:ID`, `author:'René Descartes'`, `title:"a:b"`, `state:open`, `label:""`, `status:" open"`, `it's`, "status:open\tsort:id", `  status:open   sort:id  `} {
+	for _, f := range []string{`STATUS:open`, `status:OPEN`, `Sort:id`, `sort:ID`, `"status":open`, `status:"open"`, `ti"tle:x"`, `a"b c"`, `state:open`, `label:""`, `status:" open"`, `it's`, "status:open\tsort:id", `  status:open   sort:id  `} {
 		in := strings.ReplaceAll(f, "\\t", "\t")
 		_, err, p := c12ParseSafe(in)
 		switch {
@@ -1266,15 +1831,18 @@ func runC12(tier, replay string) int {
 		}
 	}
 	r.Extra("forms_outside_the_documented_language(not judged)", beyond)
-	r.Extra("fuzz_alphabet", "\" ' : space tab a-z A-Z é ß 中 (plus qualifier words in one of three mixes)")
+	r.Extra("fuzz_alphabet", "\" ' : space tab , - a-z A-Z é ß 中 (plus qualifier words in one of four mixes; the fourth is grammar-shaped: tokens of 1..4 parts, parts bare or quoted with content from the whole alphabet, now and then damaged)")
 
-	return r.Finish("(a) seeded random strings through query.Parse under recover, shape = which of {double quote, single quote, colon, whitespace, non-ASCII} occur x length class x accepted/rejected; (b) structured queries rendered per doc/queries.md and re-parsed, shape = qualifier kinds x sort x quoted/multi-word/non-ASCII values; malformed inputs per class, alone and inside valid context; (c) populations of 10..40 bugs from two replicas opened through RepoCache, generated queries evaluated by RepoCache.Bugs().Query and by the reference evaluator, shape = qualifier kinds x sort x result-size class; a query case is non-trivial when it has a filter or search term and a non-empty expected result, or a sort and >= 2 expected results",
+	return r.Finish("(a) seeded random strings through query.Parse under recover, shape = which of {double quote, single quote, colon, whitespace, non-ASCII} occur x length class x accepted/rejected; each string is also read by the reference reader of the documented grammar (refmodel/querylex.go, three-valued): well-formed => must be accepted with that meaning, malformed => must be rejected, otherwise not judged; (b) structured queries rendered per doc/queries.md and re-parsed, shape = qualifier kinds x sort x quote styles x non-ASCII x most syntax-like feature of the values; values include what is syntax outside of quotes (':', runs of ':', leading/trailing ':', qualifier names, the other quote character, white space at the edges, ',', '-' and other operator characters), in both quote styles, for every free-valued qualifier, metadata keys and values and free-text terms: a fixed battery of every listed value x every position, then random queries; malformed inputs per class, alone and inside valid context, also next to such quoted values; (c) populations of 10..40 bugs from two replicas opened through RepoCache, whose titles, labels, creation metadata and author names contain the same sequences; generated queries evaluated by RepoCache.Bugs().Query and by the reference evaluator, shape = qualifier kinds x sort x result-size class x syntax feature; a query case is non-trivial when it has a filter or search term and a non-empty expected result, or a sort and >= 2 expected results",
 		r.Pick(800, 5000), []string{
-			"documented language = doc/queries.md plus metadata:key:value; values are words or double-quoted multi-word strings without quotes/colons; qualifiers in lower case",
+			"documented language = doc/queries.md plus metadata:key:value; a value is a bare word (no white space, ':' or quote character) or a quoted string; between the quotes every character other than the enclosing quote is data (no escape mechanism); qualifiers in lower case",
+			"the documentation names double quotes only; single quotes are exercised the same way in the structured part (b)/(c) (keys of such findings say single-quoted), but on random strings (a) a text containing ' is judged only where reading ' as a quote and as an ordinary character agree",
+			"not judged (doc silent): quote characters inside a word, empty quoted strings, quoted qualifier names, quoted or differently cased status/sort/no values, qualifiers in another letter case, the alias state:",
+			"a quoted metadata key is read like a quoted value",
 			"no sort qualifier: the order of the result is not checked (the documentation does not state a default)",
 			"creation/edit order is checked on (logical time, timestamp of creation resp. last edit); the order among bugs equal on both is unconstrained",
-			"full-text terms are planted marker tokens [a-z]{2}[0-9]{2}[a-z]{2}; a bug matches when a title/comment contains the token as a word; with several terms anything between all-terms and any-term is accepted",
-			"metadata queries use only keys set on the create operation itself; labels in the populations have no case variants",
+			"full-text terms are planted marker tokens [a-z]{2}[0-9]{2}[a-z]{2}; a bug matches when a title/comment contains the token as a word; with several terms anything between all-terms and any-term is accepted; for multi-word and punctuated terms nothing is asserted about what they find (any subset of the bugs satisfying the filters), only that the query can be evaluated, repeatably",
+			"metadata queries use only keys set on the create operation itself; labels in the populations have no case variants; labels and metadata values are compared exactly, titles and names by case-insensitive containment",
 			"reference data: from-scratch bug.Read+Compile of every bug, Lamport times from the independent gitraw reader",
 		})
 }
